@@ -178,11 +178,11 @@ pub struct Case {
 
 fn port_req() -> BoxedStrategy<Option<PortReq>> {
     let base = prop_oneof![
-        3 => (0u8..16).prop_map(PortBase::Fresh),
-        2 => (any::<u16>(), 0u8..3).prop_map(|(pick, back)| PortBase::Recorded { pick, back }),
+        5 => (0u8..16).prop_map(PortBase::Fresh),
+        1 => (any::<u16>(), 0u8..3).prop_map(|(pick, back)| PortBase::Recorded { pick, back }),
     ];
     let shape = prop_oneof![
-        8 => Just(PortShape::Fit),
+        16 => Just(PortShape::Fit),
         1 => Just(PortShape::Single),
         1 => (2u8..4).prop_map(PortShape::RangeLen),
     ];
@@ -240,7 +240,15 @@ fn op_strategy() -> BoxedStrategy<Op> {
 fn ops_strategy() -> BoxedStrategy<Vec<Op>> {
     // a sequence starts with an add (nothing else can act on an empty registry)
     (add_op(), proptest::collection::vec(op_strategy(), 0..10))
-        .prop_map(|(a, rest)| {
+        .prop_map(|(mut a, rest)| {
+            // keep the opening add free of the combinations add_node rejects up front
+            a.nat = 0;
+            if a.count.unwrap_or(1) > 1 {
+                a.first = false;
+            }
+            for p in [&mut a.node_port, &mut a.rpc_port, &mut a.metrics_port].into_iter().flatten() {
+                p.shape = PortShape::Fit;
+            }
             let mut v = vec![Op::Add(a)];
             v.extend(rest);
             v
@@ -250,7 +258,7 @@ fn ops_strategy() -> BoxedStrategy<Vec<Op>> {
 
 fn fault_strategy() -> BoxedStrategy<Fault> {
     // call index within the operation: most operations make 1-6 calls
-    let call = prop_oneof![6 => 0u8..4, 3 => 4u8..8, 1 => 8u8..14];
+    let call = prop_oneof![7 => 0u8..3, 3 => 3u8..6, 1 => 6u8..12];
     (0u8..10, call, any::<u8>())
         .prop_map(|(op, call, variant)| Fault { op, call, variant })
         .boxed()
@@ -768,22 +776,36 @@ async fn execute_async(case: &Case) -> Exec {
         }
 
         let st = env.os.st();
-        // bookkeeping for attribution only: a start (also the one inside upgrade) that did not end
-        // with the entry recorded Running although the process it launched is alive
+        // bookkeeping for attribution only: a start (also the one inside upgrade) that failed after
+        // the process it launched had come up, leaving that process unrecorded
         untracked_after_failed_start.retain(|p| st.pid_of(p).is_some());
         for n in rec.nodes.iter() {
-            if n.status == ServiceStatus::Running {
+            if n.status == ServiceStatus::Running && n.pid.is_some() && n.pid == st.pid_of(&n.antnode_path) {
                 untracked_after_failed_start.remove(&n.antnode_path);
             }
         }
-        if out.kind == "start" || out.kind == "upgrade" {
+        if (out.kind == "start" && !out.ok)
+            || (out.kind == "upgrade" && (!out.ok || out.msg == "upgraded_not_started"))
+        {
             if let Some(n) = out.target.and_then(|t| rec.nodes.get(t)) {
-                if n.status != ServiceStatus::Running && st.pid_of(&n.antnode_path).is_some() {
+                let live = st.pid_of(&n.antnode_path);
+                if live.is_some() && (n.status != ServiceStatus::Running || n.pid != live) {
                     untracked_after_failed_start.insert(n.antnode_path.clone());
                     labels.push("start_failed_after_launch".into());
                 }
             }
         }
+        let attribute = |path: &Path| -> &'static str {
+            // a root cause the harness itself witnessed earlier for this binary, so that any other
+            // way of reaching the same discrepancy keeps its own signature
+            if st.lookup_failed_while_alive.contains(path) {
+                "/after_pid_lookup_error"
+            } else if untracked_after_failed_start.contains(path) {
+                "/after_start_failed_post_launch"
+            } else {
+                ""
+            }
+        };
         // R1 / R3
         for (k, n) in rec.nodes.iter().enumerate() {
             let live = st.pid_of(&n.antnode_path);
@@ -795,14 +817,14 @@ async fn execute_async(case: &Case) -> Exec {
                     } else {
                         let newly = before_snap.get(k).map(|(s, _)| *s != ServiceStatus::Running).unwrap_or(true);
                         let sig = if !out.ok && newly {
-                            "failed_op_newly_records_running_without_process"
+                            "failed_op_newly_records_running_without_process".to_string()
                         } else if live.is_none() {
-                            "recorded_running_without_process"
+                            "recorded_running_without_process".to_string()
                         } else {
-                            "recorded_running_with_wrong_pid"
+                            format!("recorded_running_with_wrong_pid{}", attribute(&n.antnode_path))
                         };
                         fail(
-                            sig.into(),
+                            sig,
                             ctxt(&format!(
                                 "{} recorded Running pid {:?}, process table has {:?} for {}",
                                 n.service_name,
@@ -856,15 +878,7 @@ async fn execute_async(case: &Case) -> Exec {
             if let Some(n) = out.target.and_then(|t| rec.nodes.get(t)) {
                 let live = st.pid_of(&n.antnode_path);
                 if live.is_some() {
-                    // attribute to a root cause the harness itself witnessed earlier, so that any
-                    // other way of getting here keeps its own signature
-                    let sig = if st.lookup_failed_while_alive.contains(&n.antnode_path) {
-                        format!("{}_ok_but_process_alive/after_pid_lookup_error", out.kind)
-                    } else if untracked_after_failed_start.contains(&n.antnode_path) {
-                        format!("{}_ok_but_process_alive/after_start_failed_post_launch", out.kind)
-                    } else {
-                        format!("{}_ok_but_process_alive", out.kind)
-                    };
+                    let sig = format!("{}_ok_but_process_alive{}", out.kind, attribute(&n.antnode_path));
                     fail(
                         sig,
                         ctxt(&format!(
@@ -1102,8 +1116,7 @@ pub fn catalogue() -> Vec<(Glue, Vec<Op>)> {
     let strat = case_strategy();
     while out.len() < 200 {
         let c = strat.new_tree(&mut runner).expect("catalogue generation").current();
-        // keep the enumeration affordable: at most 7 operations per catalogue sequence
-        let ops: Vec<Op> = c.ops.into_iter().take(7).collect();
+        let ops: Vec<Op> = c.ops;
         if ops.len() >= 3 {
             out.push((c.glue, ops));
         }
@@ -1368,7 +1381,7 @@ pub fn run(cfg: RunCfg) {
         vh_core::section!(
             rep,
             "sequences",
-            (6_000, 300_000),
+            (40_000, 1_500_000),
             16,
             "first op is an add, then 0-9 ops drawn from add/start/stop/remove/upgrade/crash over <=5 entries; ports none/single/range, fresh or taken from recorded ones; glue Cli|Direct; 0/1/2 faults (15/50/35 %) placed at (operation, call index); non-trivial: >=3 operations executed and >=1 fault actually hit; distinct by (glue, op kinds, hit call-site kinds)",
             case_strategy,
